@@ -60,8 +60,16 @@ fn main() {
     // optional: --variants a,b  => additional registry entries for modules crate::derive_mods::<v><m>
     let mut variants: Vec<String> = Vec::new();
     let mut mods: Vec<String> = Vec::new();
+    // optional: --parts N  => modules are distributed over part0.rs .. part{N-1}.rs (one crate each),
+    // registry.rs only concatenates their registries
+    let mut parts: usize = 0;
     let mut i = 2;
     while i < args.len() {
+        if args[i] == "--parts" && i + 1 < args.len() {
+            parts = args[i + 1].parse().unwrap_or(0);
+            i += 2;
+            continue;
+        }
         if args[i] == "--variants" && i + 1 < args.len() {
             variants = args[i + 1].split(',').filter(|s| !s.is_empty()).map(String::from).collect();
             i += 2;
@@ -73,6 +81,8 @@ fn main() {
     let mut out = String::new();
     let mut reg = String::new();
     let mut total = 0usize;
+    // (source size, module declaration, registry entries) per module, for --parts
+    let mut per_module: Vec<(usize, String, String)> = Vec::new();
     for m in &mods {
         let path = dir.join(format!("{m}.rs"));
         let src = match std::fs::read_to_string(&path) {
@@ -123,7 +133,9 @@ fn main() {
                 _ => {}
             }
         }
-        writeln!(out, "#[allow(warnings, unused, clippy::all)]\npub mod m_{m} {{\n    include!(concat!(env!(\"BUFSIM_GEN\"), \"/{m}.rs\"));\n}}").unwrap();
+        let decl = format!("#[allow(warnings, unused, clippy::all)]\npub mod m_{m} {{\n    include!(concat!(env!(\"BUFSIM_GEN\"), \"/{m}.rs\"));\n}}\n");
+        out.push_str(&decl);
+        let reg_start = reg.len();
         for t in packet_impls {
             let fields = match structs.get(&t) {
                 Some(f) => f,
@@ -136,7 +148,7 @@ fn main() {
             }
             let path = format!("m_{m}::{t}");
             let sp = spoilers_for(&path, fields);
-            writeln!(reg, "    v.push(crate::laws::ops::<{path}>(\"{m}\", \"{t}\", vec![").unwrap();
+            writeln!(reg, "    v.push(buflaws::laws::ops::<{path}>(\"{m}\", \"{t}\", vec![").unwrap();
             for s in sp {
                 writeln!(reg, "        Box::new({s}),").unwrap();
             }
@@ -144,7 +156,7 @@ fn main() {
             for var in &variants {
                 let vpath = format!("tierd_mods::{var}{m}::{t}");
                 let sp = spoilers_for(&vpath, fields);
-                writeln!(reg, "    v.push(crate::laws::ops::<{vpath}>(\"{var}{m}\", \"{t}\", vec![").unwrap();
+                writeln!(reg, "    v.push(buflaws::laws::ops::<{vpath}>(\"{var}{m}\", \"{t}\", vec![").unwrap();
                 for s in sp {
                     writeln!(reg, "        Box::new({s}),").unwrap();
                 }
@@ -152,8 +164,36 @@ fn main() {
             }
             total += 1;
         }
+        per_module.push((src.len(), decl, reg[reg_start..].to_string()));
     }
-    writeln!(out, "pub fn registry() -> Vec<crate::laws::TypeOps> {{\n    let mut v = Vec::new();\n{reg}    v\n}}").unwrap();
+    if parts > 0 {
+        // greedy balancing by source size
+        per_module.sort_by(|a, b| b.0.cmp(&a.0));
+        let mut bins: Vec<(usize, String, String)> = (0..parts).map(|_| (0usize, String::new(), String::new())).collect();
+        for (sz, decl, r) in per_module {
+            let k = (0..parts).min_by_key(|k| bins[*k].0).unwrap();
+            bins[k].0 += sz;
+            bins[k].1.push_str(&decl);
+            bins[k].2.push_str(&r);
+        }
+        let mut main = String::from("pub fn registry() -> Vec<buflaws::laws::TypeOps> {\n    let mut v = Vec::new();\n");
+        for (k, (_, decls, r)) in bins.iter().enumerate() {
+            let text = format!("{decls}pub fn registry_part() -> Vec<buflaws::laws::TypeOps> {{\n    let mut v = Vec::new();\n{r}    v\n}}\n");
+            if let Err(e) = std::fs::write(dir.join(format!("part{k}.rs")), text) {
+                eprintln!("bufgen: {e}");
+                std::process::exit(2);
+            }
+            main.push_str(&format!("    v.extend(genpart{k}::registry_part());\n"));
+        }
+        main.push_str("    v\n}\n");
+        if let Err(e) = std::fs::write(dir.join("registry.rs"), main) {
+            eprintln!("bufgen: {e}");
+            std::process::exit(2);
+        }
+        println!("bufgen: {total} Packet types registered from {} modules in {parts} parts", mods.len());
+        return;
+    }
+    writeln!(out, "pub fn registry() -> Vec<buflaws::laws::TypeOps> {{\n    let mut v = Vec::new();\n{reg}    v\n}}").unwrap();
     if let Err(e) = std::fs::write(dir.join("registry.rs"), out) {
         eprintln!("bufgen: {e}");
         std::process::exit(2);
